@@ -31,7 +31,9 @@ EXPLANATION += (" R-C14-3: histogram combination aggregates the concatenated his
 EXPLANATION += (' R-C14-5: the histogram utilities (re-binning, combination) apply no constant positional access or order-sensitive operation to the source histogram or its index (order-class analysis), so the result does not depend on the order in which the source classes are listed.')
 EXPLANATION += (" R-C14-6: np.histogram / np.histogram2d in LoadCollective.range_histogram and .histogram are called with weights derived from the collective's cycles.")
 EXPLANATION += (" R-C14-7 (memo rule): no caching decorator or unreset memo attribute in the collective / histogram accessor classes, including writes by the owner object into its implementation object (use_class_left/right set _impl._class_location). R-C14-8: the class counts returned by np.histogram / np.histogram2d reach the returned series without integer coercion or rounding (astype(int...), int(), floor/round, //, dtype=int).")
-ASSUMPTIONS = ["DataFrame.max(axis=1)/min(axis=1) over the two columns is the row-wise max/min", "range >= 0"]
+EXPLANATION += (" R-C14-9: the validity tests of a binning do not use is_monotonic_decreasing as a stand-in for 'not increasing' (pandas reports an index of one class as both), so single-class target binnings are accepted.")
+ASSUMPTIONS = ["DataFrame.max(axis=1)/min(axis=1) over the two columns is the row-wise max/min", "range >= 0",
+               "pandas reports an index of a single element as is_monotonic_increasing and is_monotonic_decreasing"]
 
 
 class PropNF:
@@ -156,6 +158,61 @@ def run(ctx):
     ctx.attempt(_r6)
     ctx.attempt(_r7)
     ctx.attempt(_r8)
+    ctx.attempt(_r9)
+
+
+def _positive_decreasing_tests(fn_node):
+    """Uses of `<x>.is_monotonic_decreasing` as evidence against "increasing": un-negated in a condition.  For an index of one
+    element (or of equal elements) pandas reports BOTH is_monotonic_increasing and is_monotonic_decreasing, so such a test
+    rejects every single-class binning.  -> (monotonicity tests seen, offending attribute nodes)"""
+    seen, bad = 0, []
+    for n in ast.walk(fn_node):
+        if isinstance(n, ast.Attribute) and n.attr in ("is_monotonic_increasing", "is_monotonic_decreasing",
+                                                        "is_non_overlapping_monotonic"):
+            seen += 1
+            if n.attr != "is_monotonic_decreasing":
+                continue
+            neg = False
+            m = n
+            while getattr(m, "_parent", None) is not None and isinstance(m._parent, (ast.UnaryOp, ast.BoolOp, ast.Attribute)):
+                if isinstance(m._parent, ast.UnaryOp) and isinstance(m._parent.op, ast.Not):
+                    neg = not neg
+                m = m._parent
+            if not neg:
+                bad.append(n)
+    return seen, bad
+
+
+def _r9(ctx):
+    """R-C14-9: the validity tests of a target binning accept a binning of one class (it is gap-free and covers): "not
+    increasing" must not be tested as "decreasing"."""
+    prog = ctx.prog
+    ctx.rule("R-C14-9", floor=1, what="binning validity tests do not take is_monotonic_decreasing for 'not increasing' (single-class binnings)")
+    import ast as _a
+    from ..frontend import set_parents as _sp
+    ex = _sp(_a.parse("def f(b):\n    if not b.is_non_overlapping_monotonic or b.is_monotonic_decreasing:\n        raise ValueError()\n"
+                      "    if not b.is_monotonic_increasing:\n        raise ValueError()\n")).body[0]
+    sn, bad = _positive_decreasing_tests(ex)
+    if sn != 3 or len(bad) != 1:
+        raise AnalysisError("R-C14-9 built-in example not matched")
+    total = 0
+    for key, fi in sorted(prog.functions.items()):
+        if fi.module.name not in ("pylife.utils.histogram", "pylife.stress.collective.load_histogram",
+                                  "pylife.stress.collective.load_collective") or fi.parent is not None:
+            continue
+        sn, bad = _positive_decreasing_tests(fi.node)
+        total += sn
+        for b in bad:
+            st = b
+            while not isinstance(st, ast.stmt):
+                st = st._parent
+            ctx.violated(fi, st, "%s: %s is used as 'not monotonic increasing'; an index of a single class is both increasing and "
+                         "decreasing, so a gap-free, covering binning of one class is rejected" % (fi.name, norm_text(b)),
+                         text="decreasing as not increasing")
+        if sn and not bad:
+            ctx.holds(fi, fi.node, "%s: %d monotonicity test(s), none takes 'decreasing' for 'not increasing'" % (fi.name, sn))
+    if total == 0:
+        raise AnalysisError("no monotonicity test of a binning found")
 
 
 LOSSY_CALLS = {"int", "round", "np.floor", "np.ceil", "np.rint", "np.round", "np.around", "np.trunc", "np.fix", "math.floor",
@@ -817,6 +874,16 @@ AP = "src/pylife/stress/collective/abstract_load_collective.py"
 
 def variants():
     out = []
+
+    def decreasing_test(tree):
+        f = find_func(tree, "_fail_if_binning_invalid")
+        for n in ast.walk(f):
+            if isinstance(n, ast.UnaryOp) and isinstance(n.op, ast.Not) and isinstance(n.operand, ast.Attribute) and \
+                    n.operand.attr == "is_monotonic_increasing":
+                replace_node(n, ast.Attribute(value=n.operand.value, attr="is_monotonic_decreasing", ctx=ast.Load()))
+                return True
+        return False
+    out.append(witness("binning rejected when is_monotonic_decreasing", "src/pylife/utils/histogram.py", decreasing_test, "R-C14-9"))
 
     def unweighted(tree):
         f = find_func(tree, "LoadCollective.histogram")
